@@ -2,6 +2,7 @@ import PromModel.Tsdb.ReadOnly
 import PromModel.Suites.RoSuite
 import PromProofs.ReadOnlyMain
 import PromProofs.ReadOnlyFs
+import PromProofs.ReadOnlyInv
 /-
   C53 — a read-only open returns what a read-write open would, and changes nothing.
 
@@ -71,12 +72,69 @@ theorem write_through_link_changes_dir_witness :
 
 /-! ### All histories -/
 
-/-- The full statement over histories: after any history, both clauses hold on the directory left
-    behind. Needs the invariant `BlocksOk` along every history (see `ro_eq_rw` below) and, for
-    out-of-order data and hinted blocks, DbModel stage C/D (then it is FALSE for the code as found:
-    finding F6, `fixes/F6.patch`). -/
+/-- Block times are int64 values (the model's `Int` is unbounded; `Db.reopen` folds the cutoff from
+    `math.MinInt64` as the code does). -/
+def Int64Blocks (d : Db) : Prop := ∀ b ∈ d.blocks, MinI64 ≤ b.mint
+
+instance (d : Db) : Decidable (Int64Blocks d) := by unfold Int64Blocks; infer_instance
+
+/-- Along every history (appends, commits, rollbacks, deletes, compactions, tombstone cleaning,
+    restarts, queries, read-only opens and flushes, in any order — also compactions inside an open
+    transaction, which can produce overlapping blocks) every block ends at the range boundary above
+    its MinTime; `rangeForTimestamp` is monotone, hence MaxTime grows with MinTime. -/
+theorem blocks_aligned_along_histories (c : Cfg) (h : List XOp) :
+    Aligned (Db.xafter { cfg := c } h) ∧ (Db.xafter { cfg := c } h).cfg = c := by
+  have := xafter_aligned c { cfg := c } h ⟨rfl, by intro b hb; simp at hb⟩
+  exact ⟨this.2, this.1⟩
+
+/-- C53 clauses 1 and 2 for ALL histories of the model (stage A/B: in-order ingestion): on the
+    directory left behind by any history — closed cleanly or copied while open (`closeState` only
+    drops the open appender, nothing of which is on disk) — the read-only open answers every query
+    like the read-write open, and FlushWAL writes exactly the read-write head's data. -/
+theorem ro_eq_rw (c : Cfg) (hc : 0 < c.chunkRange) (h : List XOp)
+    (hi : Int64Blocks (Db.xafter { cfg := c } h)) (a b : Int) :
+    let d := (Db.xafter { cfg := c } h).closeState
+    d.openReadOnly.query a b = d.reopen.query a b ∧ d.openReadOnly.flushRows = d.rwHeadRows := by
+  obtain ⟨hal, hcfg⟩ := blocks_aligned_along_histories c h
+  have hok : BlocksOk (Db.xafter { cfg := c } h).closeState :=
+    blocksOk_of_aligned _ hal (by rw [show (Db.xafter { cfg := c } h).closeState.cfg = (Db.xafter { cfg := c } h).cfg from rfl, hcfg]; exact hc) hi
+  exact ⟨ro_eq_rw_state _ hok a b, flush_eq_head_state _ hok⟩
+
+/-- The model's own observations satisfy the judge's first clause (`XOut.roOk`: read-only rows =
+    read-write rows, flushed rows = head rows) at every step of every history. -/
+theorem model_obs_ok (c : Cfg) (hc : 0 < c.chunkRange) (h : List XOp) (op : XOp)
+    (hi : Int64Blocks (Db.xafter { cfg := c } h)) :
+    ((Db.xafter { cfg := c } h).xstep op).2.roOk = true := by
+  obtain ⟨hq, hf⟩ : (∀ a b, (Db.xafter { cfg := c } h).closeState.openReadOnly.query a b = (Db.xafter { cfg := c } h).closeState.reopen.query a b) ∧
+      (Db.xafter { cfg := c } h).closeState.openReadOnly.flushRows = (Db.xafter { cfg := c } h).closeState.rwHeadRows :=
+    ⟨fun a b => (ro_eq_rw c hc h hi a b).1, (ro_eq_rw c hc h hi 0 0).2⟩
+  cases op with
+  | base op => rfl
+  | roq a b clean =>
+    simp only [Db.xstep, XOut.roOk, beq_iff_eq]
+    exact hq a b
+  | rofl clean =>
+    simp only [Db.xstep, XOut.roOk, beq_iff_eq]
+    exact hf
+
+/-- The hypotheses are satisfiable and the statement is not vacuous: a concrete history with two
+    blocks, WAL data above them and a query ending below the cutoff. -/
+def exampleHistory : List XOp :=
+  [.base .begin, .base (.app 0 0 1), .base (.app 0 120 2), .base (.app 0 260 3), .base (.app 0 390 4), .base .commit,
+   .base .compact, .roq 0 150 true, .roq 0 1000 false, .rofl true]
+
+example : Int64Blocks (Db.xafter { cfg := ⟨100, 0⟩ } exampleHistory) ∧
+    (Db.xafter { cfg := ⟨100, 0⟩ } exampleHistory).blocks.length = 2 := by
+  decide
+
+/-- The full statement incl. out-of-order data and hinted blocks (DESIGN §7 C53): the same equality
+    for histories that also contain out-of-order appends, CompactOOOHead, CompactStaleHead and
+    CompactSelectedSeries. It needs DbModel stage C/D (blocks with hints; `rwCut` skipping them). For
+    the code as found it was FALSE (finding F6: the read-only cutoff did not skip hinted blocks —
+    reproduced by suite `oooro`, corpus/C53/oooro-f6.ops); with fixes/F6.patch (commit 5109e0bb47 in
+    /repo) both opens use the same rule and the proof above carries over once `Block` has hints. -/
 def ro_eq_rw_full : Prop :=
-  ∀ (c : Cfg) (h : List XOp) (a b : Int),
+  ∀ (c : Cfg) (h : List XOp) (a b : Int), 0 < c.chunkRange → 0 ≤ c.oooWin →
     let d := (Db.xafter { cfg := c } h).closeState
     d.openReadOnly.query a b = d.reopen.query a b ∧ d.openReadOnly.flushRows = d.rwHeadRows
 
